@@ -18,6 +18,10 @@ def centroid(img):
     """
 
     img = np.asarray(img)
+    if img.dtype.kind == 'f' and img.dtype.itemsize < 8:
+        # the moments of half and single precision frames are accumulated in
+        # double precision (the sum of a float16 frame overflows at 65504)
+        img = img.astype(float)
     img = img/np.sum(img)
     nr, nc = img.shape
     rr, cc = np.mgrid[0:nr, 0:nc]
